@@ -97,3 +97,100 @@ contract(P + "ParserFactory.create",
     loops={0: dict(invariant={"t": "True"}, modifies=[])},
     serves=["C09", "C17"],
     note="_setup (registry construction) is abstracted here; its result is enumerated by checks/enum_registries.py")
+
+# Generic_Binding.match - "GENERIC [, access-spec] :: generic-spec => binding-name-list" (C02: each part of the text is
+# handed on whole to its rule; the defect D69 - one character too many skipped after '=>' - was found by reading and is
+# pinned here from the property: the names are everything after the arrow)
+F03 = "fparser.two.Fortran2003:"
+_GL = "string[7:].lstrip()"
+_G2 = _GL + "[" + _GL + ".find('::') + 2:].lstrip()"
+contract(F03 + "Generic_Binding.match",
+    types=dict(string="str"),
+    returns="tuple[ref:Base?,ref:Base,ref:Base]?",
+    modifies=["rule_evals"],
+    calls={"Access_Spec": "proto:operand_rule", "Generic_Spec": "proto:operand_rule", "Binding_Name_List": "proto:operand_rule"},
+    ensures={
+        "keyword_must_lead": "implies(string[:7].upper() != 'GENERIC', result is None)",
+        "needs_colons_and_arrow": "implies(result is not None, '::' in " + _GL + " and '=>' in " + _G2 + ")",
+        "spec_is_the_text_before_the_arrow": "implies(result is not None, rule_text(nonnull(result)[1]) == " + _G2 + "[:" + _G2 + ".find('=>')].rstrip())",
+        "names_are_everything_after_the_arrow": "implies(result is not None, rule_text(nonnull(result)[2]) == " + _G2 + "[" + _G2 + ".find('=>') + 2:].lstrip())",
+        "access_spec_is_the_text_between_comma_and_colons": "implies(result is not None, (nonnull(result)[0] is not None) == " + _GL + ".startswith(',') and "
+            "implies(nonnull(result)[0] is not None, rule_text(nonnull(nonnull(result)[0])) == " + _GL + "[1:" + _GL + ".find('::')].strip()))",
+    },
+    raises={"*": {}},
+    serves=["C02"],
+)
+
+# the procedure headers print every part they hold, in the order of the statement (C01, C02; the squeeze form leaves the
+# blanks between the parts to the implementation)
+_I = lambda k: "str(self.items[%d])" % k            # noqa: E731
+_OPT = lambda k, pre, post: "('' if self.items[%d] is None else %r + str(self.items[%d]) + %r)" % (k, pre, k, post)   # noqa: E731
+contract(F03 + "Entry_Stmt.tostr",
+    types=dict(self="Base"), returns="str",
+    requires={"three_items": "len(self.items) == 3"},
+    ensures={"every_part_is_printed": "squeeze(result) == squeeze('ENTRY ' + " + _I(0) + " + '(' + " + _OPT(1, "", "") + " + ')' + " + _OPT(2, " ", "") + ")"},
+    raises=[], serves=["C01", "C02"])
+
+contract(F03 + "Subroutine_Stmt.tostr",
+    types=dict(self="Base"), returns="str",
+    requires={"four_items": "len(self.items) == 4"},
+    ensures={"every_part_is_printed": "squeeze(result) == squeeze(" + _OPT(0, "", " ") + " + 'SUBROUTINE ' + " + _I(1) + " + " + _OPT(2, "(", ")") + " + " + _OPT(3, " ", "") + ")"},
+    raises=[], serves=["C01", "C02"])
+
+contract(F03 + "Function_Stmt.tostr",
+    types=dict(self="Base"), returns="str",
+    requires={"four_items": "len(self.items) == 4"},
+    ensures={"every_part_is_printed": "squeeze(result) == squeeze(" + _OPT(0, "", " ") + " + 'FUNCTION ' + " + _I(1) + " + '(' + " + _OPT(2, "", "") + " + ')' + " + _OPT(3, " ", "") + ")"},
+    raises=[], serves=["C01", "C02"])
+
+
+def _printed(*parts):
+    """the text a rule prints, as a contract expression: literal strings, k (item k, always there) and (k, before, after)
+    (item k with the text around it, nothing when the item is None)"""
+    out = []
+    for p in parts:
+        if isinstance(p, str):
+            out.append(repr(p))
+        elif isinstance(p, int):
+            out.append(_I(p))
+        else:
+            out.append(_OPT(*p))
+    return "squeeze(result) == squeeze(" + " + ".join(out) + ")"
+
+
+def _tostr(cls, n, *parts, serves=("C01", "C02")):
+    contract(F03 + cls + ".tostr", types=dict(self="Base"), returns="str",
+             requires={"item_count": "len(self.items) == %d" % n},
+             ensures={"every_part_is_printed": _printed(*parts)}, raises=[], serves=list(serves))
+
+
+_tostr("Generic_Binding", 3, "GENERIC", (0, ", ", ""), " :: ", 1, " => ", 2)
+_tostr("Type_Declaration_Stmt", 3, 0, (1, ", ", ""), " :: ", 2)
+_tostr("Initialization", 2, 0, " ", 1)
+_tostr("Component_Initialization", 2, 0, " ", 1)
+_tostr("Language_Binding_Spec", 1, "BIND(C", (0, ", NAME = ", ""), ")")
+_tostr("Intent_Stmt", 2, "INTENT(", 0, ") :: ", 1)
+_tostr("Allocate_Stmt", 3, "ALLOCATE(", (0, "", "::"), 1, (2, ", ", ""), ")")
+_tostr("Deallocate_Stmt", 2, "DEALLOCATE(", 0, (1, ", ", ""), ")")
+_tostr("Pointer_Assignment_Stmt", 3, 0, (1, "(", ")"), " => ", 2)
+_tostr("Where_Stmt", 2, "WHERE (", 0, ") ", 1)
+_tostr("Masked_Elsewhere_Stmt", 2, "ELSEWHERE(", 0, ")", (1, " ", ""))
+_tostr("Forall_Triplet_Spec", 4, 0, " = ", 1, " : ", 2, (3, " : ", ""))
+_tostr("If_Then_Stmt", 1, "IF (", 0, ") THEN", serves=("C01", "C02", "C08"))
+_tostr("Else_If_Stmt", 2, "ELSE IF (", 0, ") THEN", (1, " ", ""), serves=("C01", "C02", "C08"))
+_tostr("Else_Stmt", 1, "ELSE", (0, " ", ""), serves=("C01", "C02", "C08"))
+_tostr("If_Stmt", 2, "IF (", 0, ") ", 1)
+_tostr("Select_Case_Stmt", 1, "SELECT CASE (", 0, ")", serves=("C01", "C02", "C08"))
+_tostr("Case_Stmt", 2, "CASE ", 0, (1, " ", ""), serves=("C01", "C02", "C08"))
+_tostr("Select_Type_Stmt", 2, "SELECT TYPE(", (0, "", "=>"), 1, ")", serves=("C01", "C02", "C08"))
+_tostr("Goto_Stmt", 1, "GO TO ", 0)
+_tostr("Computed_Goto_Stmt", 2, "GO TO (", 0, "), ", 1)
+_tostr("Arithmetic_If_Stmt", 4, "IF (", 0, ") ", 1, ", ", 2, ", ", 3)
+_tostr("Write_Stmt", 2, "WRITE(", 0, ")", (1, " ", ""))
+_tostr("Print_Stmt", 2, "PRINT ", 0, (1, ", ", ""))
+_tostr("Block_Data_Stmt", 1, "BLOCK DATA", (0, " ", ""))
+_tostr("Procedure_Stmt", 1, "MODULE PROCEDURE ", 0)
+_tostr("Call_Stmt", 2, "CALL ", 0, (1, "(", ")"))
+_tostr("Suffix", 2, "RESULT(", 0, ")", (1, " ", ""))
+_tostr("Return_Stmt", 1, "RETURN", (0, " ", ""))
+_tostr("Stmt_Function_Stmt", 3, 0, " (", (1, "", ""), ") = ", 2)
